@@ -23,6 +23,14 @@ CLAIMED = {
             'decode(encode p) = p for all keys and words (NULL and in-page links survive), the double-free quick filter never hides a block whose first word is a genuine encoded link, a link decoding outside the page is reported EFAULT and cut, genuine links are followed, set_next stores exactly the encoding, a wrong canary or oversized delta fails the padding check, the canary low byte is 0: theorems about definitions regenerated from internal.h/free.c in the -DMI_SECURE=4 configuration; the generated functions are compared with the compiled ones on real blocks (2.8k comparisons per run); a secure-build and a debug-build oracle inject double frees, overflowing bytes and forged links into histories and check the error codes, no double hand-out and no address outside the heap afterwards.',
             TB + 'the list walk of mi_check_is_double_freex and the fill-byte loop of mi_verify_padding are exercised by the harness, not modelled; exclusions as in the property text.',
             'DESIGN.md §4 C17'),
+    'C02': ('Lean 4 invariant proof over all interleavings of an atomic-step protocol model + trace validation of the hooked real allocator under a deterministic scheduler',
+            'Model.Delayed has one transition per atomic operation of the cross-thread free protocol (incl. failed/spurious weak CAS); proved for every interleaving and any number of in-flight frees: every block is in exactly one place (conservation), the block an allocation returns is on no other list and not live, blocks become live only by a pop of the free list, the delayed-freeing state has exactly one holder. Tie: the real allocator runs with every atomic operation as a scheduling point; its event logs on the page/heap words are replayed through an executable validator proved sound w.r.t. the step relation (an accepted log is a model execution); a scheduler stress oracle (shadow live set with patterns, MI_DEBUG=3 and release) searches failing schedules.',
+            TB + 'sequentially consistent atomics (weak memory and data races on non-atomic fields outside the model); the event-to-label mapping of the validator; one page per validated trace, other pages via the stress oracle.',
+            'DESIGN.md §4 C02'),
+    'C08': ('Lean 4 invariant proof over all interleavings (delayed-free flag invariant, never-lost, quiescent drain) + trace validation + end-of-run oracle under the scheduler',
+            'Proved for every interleaving: the documented NO_DELAYED_FREE invariant, a pushed block stays pending until the flag is reset, no step loses or invents a block, from any quiescent reachable state the owner alone can drain so that every non-live block is on its free/local-free list (all freed => page empty), and an in-flight remote free can always complete. Tie as C02 (validated traces); oracles: blocks held by the program == page->used after a forced collect, no live block and no abandoned segment left after everything was freed.',
+            TB + 'sequentially consistent atomics; "bounded memory however long it runs" is only covered by the end-of-run oracles (no fairness assumption is modelled) — stated as partial in DESIGN.md.',
+            'DESIGN.md §4 C08'),
 }
 NOT_YET = 'check not built yet (work in progress in this session; see DESIGN.md §12 implementation order)'
 def main():
